@@ -77,8 +77,16 @@ func VfCrawl() {
 	c := &DefaultCrawler{parallelism: 1 + vfChoose("parallelism", 2), connectTimeout: time.Second, queryTimeout: time.Second, host: &vfHost{ps: &vfPstore{}}}
 	nSeeds := 1 + vfChoose("nSeeds", 2)
 	var seeds []*peer.AddrInfo
+	seedHasAddrs := map[peer.ID]bool{}
 	for i := 0; i < nSeeds && i < N; i++ {
-		seeds = append(seeds, &peer.AddrInfo{ID: vfPeers[i], Addrs: []ma.Multiaddr{vfAddrOf(i)}})
+		// a seed may be known by ID only (no address here or in the peerstore): it
+		// is skipped as a starting point but crawled if somebody names it
+		ai := &peer.AddrInfo{ID: vfPeers[i]}
+		if vfBool("seed.hasAddrs") {
+			ai.Addrs = []ma.Multiaddr{vfAddrOf(i)}
+			seedHasAddrs[ai.ID] = true
+		}
+		seeds = append(seeds, ai)
 	}
 	succ, fail := map[peer.ID]int{}, map[peer.ID]int{}
 	c.Run(context.Background(), seeds,
@@ -88,8 +96,10 @@ func VfCrawl() {
 	reach := map[peer.ID]bool{}
 	var work []peer.ID
 	for _, s := range seeds {
-		reach[s.ID] = true
-		work = append(work, s.ID)
+		if seedHasAddrs[s.ID] {
+			reach[s.ID] = true
+			work = append(work, s.ID)
+		}
 	}
 	for len(work) > 0 {
 		p := work[0]
